@@ -15,6 +15,7 @@ import (
 	"github.com/google/pprof/profile"
 	"github.com/google/pprof/xverif/model"
 	"github.com/google/pprof/xverif/pp"
+	"github.com/google/pprof/xverif/tlsfix"
 	"github.com/google/pprof/xverif/vk"
 	"pgregory.net/rapid"
 )
@@ -420,4 +421,21 @@ func sorted(s []string) []string {
 func TestPropFetch(t *testing.T) {
 	vk.Main(t, vk.Spec[fetchCase]{ID: "C16", Facet: "fetch", Quick: 600, Thorough: 3000, Gen: genCase, Check: check, Journal: true,
 		Rule: "source lists of 1..300 (sizes biased to 1,2,127,128,129,130,255,256,257,300) and base lists of 0..129 (-base or -diff_base), every source with its own comment, header and stack, in a quarter of the cases with the sample type in a different unit per source (s, ns, ms); failure subsets (none/few/many/all/the whole first chunk of 128) of kinds {fetcher error or missing file, garbage body, invalid-but-decodable profile or HTTP 500, HTTP 404, invalid profile object handed over by the plug-in (too many or too few values per sample)}; through the Fetcher plug-in or through pprof's own file/HTTP fetcher with a scripted RoundTripper; per-source delays perturb the completion order; oracle: canonical sum of exactly the successful sources minus bases, comments and header precedence in command-line order, one error line per failed source plus the 'Fetched k of n' line, error iff nothing (or no base) could be fetched, byte-identical output under a second completion order and with the failing sources left off; non-trivial = >=2 successes and >=1 failure, or a list crossing 128"})
+}
+
+// ---- facet tls: which https sources make it into the merge ----
+
+func genTLS(t *rapid.T) *tlsfix.Case {
+	n := rapid.SampledFrom([]int{2, 3, 8, 130}).Draw(t, "n")
+	c := &tlsfix.Case{N: n, Insecure: rapid.IntRange(0, n-1).Draw(t, "insecure"), SlowMs: rapid.SampledFrom([]int{0, 0, 30}).Draw(t, "slow")}
+	c.Secure = (c.Insecure + 1 + rapid.IntRange(0, n-2).Draw(t, "secureoff")) % n
+	if n == 130 && rapid.Bool().Draw(t, "spread") {
+		c.Insecure, c.Secure = rapid.IntRange(0, 127).Draw(t, "ins0"), 128+rapid.IntRange(0, 1).Draw(t, "sec1") // different chunks of 128
+	}
+	return c
+}
+
+func TestPropTLS(t *testing.T) {
+	vk.Main(t, vk.Spec[tlsfix.Case]{ID: "C16", Facet: "tls", Quick: 40, Thorough: 300, Gen: genTLS, Check: tlsfix.Check, CaseTimeout: 120 * time.Second,
+		Rule: "2..130 sources fetched over loopback HTTP with pprof's own transport: one given as https+insecure://, one as https:// to the same server (self-signed certificate), the rest plain http, at drawn positions (same or different chunk of 128), the insecure answer optionally held back 30 ms; oracle: the insecure source and every plain source are in the report, the https:// source is not; every case is non-trivial"})
 }
